@@ -70,6 +70,10 @@ var scalarTypes = []reflect.Type{tString, tInt, tBool, tFloat64, tInt8, tInt64, 
 
 // formatsFor lists format tag values that are meaningful for a field type
 // (needs json.ExperimentalGlobalSupportFormatTag(true), which the workers set).
+// FormatTags says whether generated struct types may carry `format:` tags;
+// the worker sets it per run together with the library's process-wide switch.
+var FormatTags = true
+
 func formatsFor(t reflect.Type) []string {
 	switch {
 	case t == tTime:
@@ -218,7 +222,7 @@ func (g *GoGen) structType(depth int) reflect.Type {
 			name, opts = "", ",embed"
 			embedUsed = true
 		}
-		if fm := formatsFor(ft); fm != nil && opts != ",embed" && s.Chance(1, 3) {
+		if fm := formatsFor(ft); FormatTags && fm != nil && opts != ",embed" && s.Chance(1, 3) {
 			opts += ",format:" + fm[s.Draw(len(fm))] // must come last
 		}
 		f := reflect.StructField{Name: "F" + strconv.Itoa(i), Type: ft}
